@@ -67,7 +67,9 @@ def universe(seed, uid):
             if rng.random() < .3:
                 ft['py'] = 'py_f%d_%d' % (i, j)         # the public name differs from the name of the Python attribute (sub_name)
             fields.append(['f%d_%d' % (i, j), ft])
-        types.append({'name': 'K%d' % i, 'ns': ns, 'base': base, 'fields': fields, 'has_xmldata': False})
+        # in every third universe some subclasses live in a namespace of their own: one that nothing but their type marker may be using
+        types.append({'name': 'K%d' % i, 'ns': (ns + ':ext') if (uid % 3 == 1 and base is not None and rng.random() < .5) else ns, 'base': base, 'fields': fields,
+                      'has_xmldata': False})
     # a holder class with members declared as bases
     roots = [t['name'] for t in types if any(x['base'] == t['name'] for x in types)] or [types[0]['name']]
     hb = rng.choice(roots)
@@ -85,6 +87,9 @@ def universe(seed, uid):
                'style': 'wrapped'}]
         rng.shuffle(ms)
         methods += ms[:rng.randint(1, 3)]
+        if uid % 3 == 1:
+            # the object is the message itself: its element is the root of the document
+            methods.append({'name': 'bare%d' % k, 'args': [['p', {'ref': b}]], 'returns': [{'ref': b}], 'style': 'bare'})
     methods.append({'name': 'held', 'args': [['h', {'ref': 'Holder'}]], 'returns': [{'ref': 'Holder'}], 'style': 'wrapped'})
     rng.shuffle(methods)
     return {'uid': uid, 'tns': tns, 'types': types, 'services': [{'name': 'Svc', 'methods': methods}]}
@@ -259,6 +264,8 @@ def run_universe(R, seed, uid, tier, grow=False):
                 R.count('construction_rejected')
                 continue
             for md in ir['services'][0]['methods']:
+                if md['style'] == 'bare' and kind not in XML_KINDS:
+                    continue        # (a message that is the object itself: in the dict protocols it has no place for the class marker; judged for XML only)
                 for k in range(2 if tier == 'quick' else 5):
                     (an, at), = md['args']
                     arg = gen.gen_value(rng, ir, at, top=True, subclass_ok=True)
